@@ -260,7 +260,7 @@ impl Prop for C20 {
             let mut sess = Session::start(&[]).map_err(|e| Fail::new("harness", e))?;
             sess.send(&format!("position fen {} moves {}", start_fen, moves_text(&r.moves)));
             sess.send("show");
-            let Some(lines) = sess.read_until(|l| l.starts_with("   a b c") || l.starts_with("error:"), 5000) else {
+            let Some(lines) = sess.read_until(|l| l.starts_with("   a b c") || l.starts_with("error:"), 15_000) else {
                 sess.kill();
                 return Err(Fail::new("show-unanswered", format!("game {} moves {}", start_fen, moves_text(&r.moves))));
             };
